@@ -126,6 +126,12 @@ RA(N) == [Base EXCEPT !.states = <<S1>>, !.controls = <<Sym1>>,
                       !.params = <<[kind |-> "c", val |-> PVals(1, N)], [kind |-> "cp", val |-> PVals(3, N + 1)]>>,
                       !.rhs = <<Plus3(Times(P(1), X(1)), Times(P(2), Tm), U(1))>>]
 
+\* RG:  a 2x2 matrix-valued per-interval parameter P (column-major p1..p4; one 2x2 block per control interval):
+\*      x' = p1 x + p2 t + p3 u + p4.  Element layout: entry (r, c) of the block of interval k is p_(r + 2(c-1)) on interval k
+RG(N) == [Base EXCEPT !.states = <<S1>>, !.controls = <<Sym1>>,
+                      !.params = Tup([i \in 1..4 |-> [kind |-> "c", val |-> PVals(i, N)]]), !.pblocks = <<<<2, 2>>>>,
+                      !.rhs = <<Plus(Plus3(Times(P(1), X(1)), Times(P(2), Tm), Times(P(3), U(1))), P(4))>>]
+
 \* RB:  x' = 2x + u + vcp          (a per-interval variable with an entry of its own at the final node)
 RB(N) == [Base EXCEPT !.states = <<S1>>, !.controls = <<Sym1>>, !.vars = <<[kind |-> "cp", scale |-> One]>>,
                       !.rhs = <<Plus3(Times(CI(2), X(1)), U(1), V(1))>>]
@@ -137,7 +143,7 @@ RC(N) == [Base EXCEPT !.states = <<S1>>, !.controls = <<Sym1>>,
 
 RhsIds == {"R1", "R2", "R3", "R4", "R5", "R7"}
 Rhs(id, N) == CASE id = "R1" -> R1(N) [] id = "R2" -> R2(N) [] id = "R3" -> R3(N)
-                [] id = "R4" -> R4(N) [] id = "R5" -> R5(N) [] id = "R7" -> R7(N) [] id = "R6" -> R6(N) [] id = "RD" -> RD(N) [] id = "R8" -> R8(N) [] id = "R9" -> R9(N) [] id = "RE" -> RE(N) [] id = "RF" -> RF(N) [] id = "R3v" -> R3v(N) [] id = "RA" -> RA(N) [] id = "RB" -> RB(N) [] id = "RC" -> RC(N)
+                [] id = "R4" -> R4(N) [] id = "R5" -> R5(N) [] id = "R7" -> R7(N) [] id = "R6" -> R6(N) [] id = "RD" -> RD(N) [] id = "R8" -> R8(N) [] id = "R9" -> R9(N) [] id = "RE" -> RE(N) [] id = "RF" -> RF(N) [] id = "R3v" -> R3v(N) [] id = "RA" -> RA(N) [] id = "RG" -> RG(N) [] id = "RB" -> RB(N) [] id = "RC" -> RC(N)
 
 (***************************************************************************)
 (* Path / boundary constraints (all well-formed for every rhs above:       *)
